@@ -81,7 +81,13 @@ func genC03(t *rapid.T) c03Case {
 	c.Profile.Undefined = map[string][]string{}
 	for _, l := range levels[:3] {
 		if rapid.IntRange(0, 4).Draw(t, "undef") == 0 {
-			c.Profile.Undefined[l] = append(c.Profile.Undefined[l], "ghost-"+l)
+			name := "ghost-" + l
+			if nv > 0 && rapid.Bool().Draw(t, "nearMiss") {
+				// a near miss of a defined name is still another name
+				base := c.Profile.Validations[rapid.IntRange(0, nv-1).Draw(t, "nearMissOf")].Name
+				name = pick(t, []string{strings.ToUpper(base), strings.Title(base), " " + base, base + " ", base + "_"}, "nearMissName")
+			}
+			c.Profile.Undefined[l] = append(c.Profile.Undefined[l], name)
 		}
 		if rapid.IntRange(0, 3).Draw(t, "emptyLevel") == 0 {
 			c.Profile.EmptyLevels = append(c.Profile.EmptyLevels, l)
